@@ -1127,6 +1127,8 @@ class Evaluator:
                 return simp(r)
             if concrete(b) and b == Fraction(1, 2):
                 return self.ex.call_builtin("np.sqrt", self.st, [za], {}, n, self)
+            if concrete(a) and a == 2:
+                return self.ex.call_builtin("pow2", self.st, [zb], {}, n, self)
             raise Outside("general power")
         raise Outside(f"binary operator {type(op).__name__}")
 
